@@ -247,10 +247,20 @@ pub uninterp spec fn string_index_rel<I: core::slice::SliceIndex<str>>(s: &Strin
 pub assume_specification<I: core::slice::SliceIndex<str>> [ <String as core::ops::Index<I>>::index ] (s: &String, i: I) -> (o: &I::Output)
     // the precondition is vstd's `IndexSpec::index_req` (given meaning for ASCII strings by T14 in trusted.rs)
     ensures string_index_rel(s, i, o);
+/// the same on a `&str` (`&s[a..]`, `&s[..b]`): meaning for RangeFrom / RangeTo by T14' (axiom_str_index_*, trusted.rs)
+pub uninterp spec fn str_index_rel<I: core::slice::SliceIndex<str>>(s: &str, i: I, o: &I::Output) -> bool;
+pub assume_specification<I: core::slice::SliceIndex<str>> [ <str as core::ops::Index<I>>::index ] (s: &str, i: I) -> (o: &I::Output)
+    // the precondition is vstd's `IndexSpec::index_req` (given meaning by T14')
+    ensures str_index_rel(s, i, o);
 pub assume_specification [ String::len ] (s: &String) -> (r: usize)
     ensures is_ascii_chars(s@) ==> r == s@.len();
 
 // ---------------- functions the crate does not call today, specified so that plausible rewrites of it stay verifiable ----------------
+/// `a.eq_ignore_ascii_case(b)` on `str` (std: the byte strings are compared with 'A'..='Z' folded onto 'a'..='z'; bytes of
+/// multi-byte characters are >= 0x80 and never folded, so this is the same comparison character by character)
+pub open spec fn ascii_fold(c: char) -> int { if 65 <= (c as u32) && (c as u32) <= 90 { (c as u32) + 32 } else { c as u32 as int } }
+pub assume_specification [ str::eq_ignore_ascii_case ] (a: &str, b: &str) -> (r: bool)
+    ensures r == (a@.len() == b@.len() && forall|i: int| 0 <= i < a@.len() ==> ascii_fold(#[trigger] a@[i]) == ascii_fold(b@[i]));
 /// `alloy_rlp::length_of_length(n)`: the length of the header of an item with an n-byte payload (same for strings and lists)
 pub assume_specification [ alloy_rlp::length_of_length ] (payload_length: usize) -> (r: usize)
     ensures r == hdr(true, payload_length as nat).len(), r == hdr(false, payload_length as nat).len();
